@@ -48,7 +48,9 @@ pub enum AlphaSize {
 
 /// groups of filters that differ in meaning but are easily confused by a lossy rendering or a structural shortcut
 /// (name chains vs joined names, grouping, omitted vs zero slice bounds, index chains vs unions vs longer indices)
-pub const CONFUSABLE: [&[&str]; 9] = [
+pub const CONFUSABLE: [&[&str]; 10] = [
+    // a negated ordering comparison is not the mirrored comparison (operands that are not comparable)
+    &["!(@.a<2)", "@.a>=2", "!(@.a>='a')"],
     // a pattern taken from the document stays a document string whatever route it takes to the function
     &["match(@,value($..p))", "search(@,value($.q[0:1]))", "match(@,$.p)", "search(@,value($.q[?@]))"],
     // strings are ordered by Unicode scalar value: U+FFFD < U+10000 although its UTF-16 form sorts the other way
@@ -211,6 +213,8 @@ pub fn alphabet(doc: &Value, size: AlphaSize, max_names: usize, spellings: bool)
             vec![Sel::name(&names[0]), Sel::Wild, Sel::name(&names[0])],
             vec![Sel::Slice(None, None, Some(-1)), Sel::Index(0), Sel::Slice(Some(1), None, None)],
             vec![filter_sel("@.a"), Sel::Wild, filter_sel("!@.a")],
+            vec![filter_sel("@.a"), filter_sel("@==1"), filter_sel("@.a")],
+            vec![filter_sel("@==1"), filter_sel("@.a"), filter_sel("@==1"), filter_sel("@.a")],
         ];
         for t in triples {
             actions.push(Seg::child(t.clone()));
